@@ -51,7 +51,7 @@ func oadTypeFromSchemaType(s string) OADType {
 		return OADTypeString
 	case string(schema.SchemaTypeInteger):
 		return OADTypeInteger
-	case string(schema.SchemaTypeFloat):
+	case string(schema.SchemaTypeFloat), string(schema.SchemaTypeDecimal):
 		return OADTypeNumber
 	case string(schema.SchemaTypeBoolean):
 		return OADTypeBoolean
